@@ -43,7 +43,7 @@ checksum_value = st.one_of(gen.hexdigest, st.text(st.sampled_from(list("01234567
 @st.composite
 def ti_paths(draw):
     kinds = draw(gen.subsets(PATH_KINDS))
-    return {k: draw(ini_path) for k in kinds}
+    return {k: draw(st.one_of(ini_path, ini_path, ini_path, ini_path, st.just(""))) for k in kinds}      # "" = the tree root itself (written as 'packages = ')
 
 
 @st.composite
@@ -108,9 +108,12 @@ def tree_desc(draw, max_top=3, max_depth=3, allow_empty=False, family_filter=Non
         media = {"discnum": draw(st.integers(1, total)), "totaldiscs": total}
     checksums = draw(st.dictionaries(st.one_of(option_name, ini_path.filter(lambda p: "=" not in p and ":" not in p)).map(_norm_rel).filter(
         lambda p: p and p[0] not in "#;[/" and p.strip() == p), st.tuples(checksum_type, checksum_value).map(list), max_size=4)) if draw(st.booleans()) else {}
-    if checksums and draw(st.integers(0, 3)) == 0:
+    if draw(st.integers(0, 3)) == 0:
         # entries that did not go through add(): the key is whatever spelling the producer used
-        checksums[draw(st.sampled_from(["./images/boot.iso", "images//boot.iso", "a/../b", "images/./boot.iso", "repodata/"]))] = ["sha256", "ab" * 32]
+        raw = draw(st.sampled_from(["./images/boot.iso", "images//boot.iso", "a/../b", "images/./boot.iso", "repodata/"]))
+        checksums[raw] = ["sha256", "ab" * 32]
+        if draw(st.booleans()):
+            checksums[_norm_rel(raw)] = ["sha256", "cd" * 32]       # ... next to the normalised spelling of the same location: two entries
     desc = {"release": release, "layered": layered, "base_product": bp,
             "tree": {"arch": arch, "build_timestamp": ts, "platforms": platforms},
             "variants": tops, "images": images, "stage2": stage2, "media": media, "checksums": checksums}
@@ -397,6 +400,8 @@ def labels(desc):
         out.append("child-type:" + t)
     if any(n["uid"] != n["id"] for n in desc["variants"]):
         out.append("dashed-top-uid")
+    if len(set(_norm_rel(k) for k in desc["checksums"])) < len(desc["checksums"]):
+        out.append("two-spellings-of-one-checksum-path")
     for k in ("layered", ):
         if desc[k]:
             out.append(k)
